@@ -41,6 +41,7 @@ impl Scenario for ConnScenario {
 			per_conn_http_mw: self.name.contains("http-middleware"),
 			tcp: self.name.starts_with("tcp:"),
 			low_ws: self.name.starts_with("low-level:"),
+			max_req: if self.name.contains("oversized-frame") { 256 } else { 0 },
 			restrict_last: if self.name.contains("http-only-last") { Some(false) } else if self.name.contains("ws-only-last") { Some(true) } else { None },
 			..Default::default()
 		})
@@ -262,6 +263,8 @@ pub fn scenarios(thorough: bool) -> Vec<ConnScenario> {
 	add("low-level:http-only", 1, vec![http(vec![HttpAct::SlowCall, HttpAct::Call]), http(vec![HttpAct::SlowCall]), http(vec![HttpAct::Call])], false, mask_harness_only);
 	add("low-level:mixed", 1, vec![ws(vec![PeerAct::SlowCall, PeerAct::CloseFrame]), http(vec![HttpAct::SlowCall]), http(vec![HttpAct::Call])], false, mask_harness_only);
 	add("low-level:http-aborted-mid-call", 1, vec![http(vec![HttpAct::CallThenDrop]), http(vec![HttpAct::Call]), http(vec![HttpAct::SlowCall])], false, mask_harness_only);
+	// a frame above max_request_body_size neither ends the session nor frees its slot
+	add("ws-oversized-frame", 1, vec![ws(vec![PeerAct::Oversized(300), PeerAct::SlowCall, PeerAct::CloseFrame]), ws(vec![PeerAct::Call]), http(vec![HttpAct::Call])], false, mask_harness_only);
 	// exit paths, limit 1: after each path a fresh connection must be admitted
 	add("aborted-upgrade", 1, vec![Conn::WsAbortedUpgrade, ws(vec![PeerAct::Call]), http(vec![HttpAct::Call])], false, mask_harness_only);
 	add("http-aborted-mid-call", 1, vec![http(vec![HttpAct::CallThenDrop]), http(vec![HttpAct::Call]), ws(vec![PeerAct::Call, PeerAct::CloseFrame])], false, mask_harness_only);
@@ -296,7 +299,7 @@ pub fn scenarios(thorough: bool) -> Vec<ConnScenario> {
 pub fn check(rep: &Reporter) {
 	let thorough = rep.tier.thorough();
 	rep.set_rule(
-		"max_connections ∈ {0,1,2} (thorough 3); limit+1…limit+3 connections sharing one TowerServiceBuilder (one ConnectionGuard): HTTP requests whose handler parks ('being processed'), keep-alive follow-ups, WebSocket sessions closed by a close frame, reset mid-call, with an open subscription, an upgrade whose response is never read, an HTTP request aborted mid-call, a protocol violation, a server-side close for ping inactivity (idle and with a call in flight), server stop; the moment each peer connects and every later action are scheduling points, so every order of opens/closes/aborts is explored (whole tree or ≤K deviations); per scenario also the cfg points in the server's WebSocket tasks. Monitor: the number of connections certainly in service never exceeds the limit and agrees with ConnectionGuard::available_connections() read from the request extensions; every 429 is justified by a possibly-full server at some moment of the attempt (interval rule), so a slot that is not freed by some exit path shows as an unjustified refusal; no handler runs for a refused request.",
+		"max_connections ∈ {0,1,2} (thorough 3); limit+1…limit+3 connections sharing one TowerServiceBuilder (one ConnectionGuard): HTTP requests whose handler parks ('being processed'), keep-alive follow-ups, WebSocket sessions closed by a close frame, reset mid-call, sent a frame above max_request_body_size, with an open subscription, an upgrade whose response is never read, an HTTP request aborted mid-call, a protocol violation, a server-side close for ping inactivity (idle and with a call in flight), server stop; the moment each peer connects and every later action are scheduling points, so every order of opens/closes/aborts is explored (whole tree or ≤K deviations); per scenario also the cfg points in the server's WebSocket tasks. Monitor: the number of connections certainly in service never exceeds the limit and agrees with ConnectionGuard::available_connections() read from the request extensions; every 429 is justified by a possibly-full server at some moment of the attempt (interval rule), so a slot that is not freed by some exit path shows as an unjustified refusal; no handler runs for a refused request.",
 	);
 	rep.assume("a WebSocket session is in service from its handshake until on_session_closed() (also after a protocol violation by a hand-written peer that keeps its socket open); an HTTP request from being sent until its response is read (possible) / while its handler runs (certain)");
 	for s in scenarios(thorough) {
